@@ -195,7 +195,8 @@ AR = ["accepted", "rejected"]
 R = ["rejected"]
 # no channel: requested_samples/last_sca_cell symbolic
 pwb("c05_nochan_56", 56, -1, -1, -1, 0, "always", AR, nochan=True)
-pwb("c05_nochan_56_t5", 56, -1, -1, 5, 0, "always", AR, nochan=True)
+pwb("c05_nochan_56_t5", 56, -1, -1, 5, 0, "pool", AR, nochan=True)
+pwb("c05_nochan_56_t78", 56, -1, -1, 78, 0, "always", AR, nochan=True)
 pwb("c05_nochan_56_t79", 56, -1, -1, 79, 0, "always", R, nochan=True)
 pwb("c05_nochan_58", 58, -1, -1, -1, 0, "always", R, nochan=True)
 pwb("c05_nochan_60", 60, -1, -1, -1, 0, "pool", R, nochan=True)
@@ -222,7 +223,9 @@ pwb("c05_two_s0_78_rs3", 56 + 2 * bpc(3), 0, 78, -1, 3, "thorough", AR, est=1800
 for i in INSTS:
     if i.name.startswith("c05_two_"):
         # measured: symbolic execution alone ~12 min, solver needs > 18 GB: best effort, one or two at a time
-        i.klass, i.cap_s, i.mem_gb, i.cap_gb = "best", 5400, 24, 40
+        i.klass, i.cap_s, i.mem_gb, i.solver = "core", 3000, 10, "minisat"
+    if i.name == "c05_two_s15_16_rs2":
+        i.sched = "always"
 META["C05"] = {
     "pool_k": 8,
     "budget_s": {"thorough": 3 * 3600},
@@ -342,19 +345,19 @@ for L in (0, 3, 4, 8, 240, 243, 244, 245, 248):
 for L in range(0, 17):
     w = L // 4
     add(name="c07_fifo_prefix_%d" % L, prop="C07", also=["C01"], crate="det", expr="crate::c07::fifo_prefix::<%d>" % L,
-        unwind=4, unwindset=fifo_loops(w), cap_s=3600 if L > 8 else 1800, mem_gb=6 if L <= 8 else 12,
+        unwind=4, unwindset=fifo_loops(w), cap_s=4000, mem_gb=8 if L < 8 else 16, cap_gb=48,
         est_s=30 if L < 4 else (120 if L < 8 else 700), family="fifo_prefix", funcs=FIFO_FUNCS,
         witnesses=["all-words-are-entries", "no-entry"],
-        sched="always" if L in (0, 3, 4, 5) else ("pool" if L <= 8 else "thorough"), klass="core" if L <= 8 else "best",
+        sched="always" if L in (0, 3, 4) else "thorough", klass="core" if L <= 5 else "best",
         params={"bytes": L, "content": "all"})
 for (L, cuts) in ((4, (0, 1, 2, 3, 4)), (8, (0, 1, 3, 4, 5, 7, 8)), (12, (4, 6, 8))):
     for C in cuts:
         add(name="c07_fifo_split_%d_c%d" % (L, C), prop="C07", crate="det", expr="crate::c07::fifo_split::<%d, %d>" % (L, C),
             unwind=4, unwindset=fifo_loops(L // 4), cap_s=5400, mem_gb=10 if L <= 8 else 16, est_s=200 if L == 4 else 1500,
             family="fifo_split", funcs=FIFO_FUNCS, witnesses=["some-entry"],
-            sched="always" if (L, C) in ((4, 2),) else ("pool" if L == 4 else "thorough"), klass="core" if L == 4 else "best",
+            sched="thorough", klass="best", cap_gb=48,
             params={"bytes": L, "cut": C, "content": "all"})
-for (A, B) in ((0, 0), (1, 0), (0, 1), (1, 1)):
+for (A, B) in ((0, 0), (1, 0), (0, 1), (1, 1), (1, 2)):
     full = 4 * A + 244 + 4 * B
     for L in sorted({full, full - 1, full - 4, 4 * A + 2, 4 * A + 4, 4 * A + 120, 4 * A + 243}):
         if L < 0 or L > full:
@@ -365,8 +368,8 @@ for (A, B) in ((0, 0), (1, 0), (0, 1), (1, 1)):
             sched="thorough", klass="best",
             params={"entries_before": A, "entries_after": B, "bytes": L, "of": full, "content": "block counters and entry payload bits symbolic"})
 META["C07"] = {
-    "pool_k": 3,
-    "budget_s": {"thorough": 4 * 3600},
+    "pool_k": 2,
+    "budget_s": {"thorough": 5 * 3600},
     "bounds": "one entry parser: all 2^32 words and all shorter inputs; scaler block parser: 0..=248 bytes; chronobox_fifo on every "
               "content of 0..=8 bytes (thorough: up to 16, best effort); split invariance for every cut of 4-byte streams (thorough: "
               "8/12-byte streams, best effort); streams with one scaler block and <=1 entry on each side, complete and truncated "
@@ -486,58 +489,62 @@ import itertools as _it
 CHUNKS_FUNCS = ["alpha_g_detector::padwing::<PwbV2Packet as TryFrom<Vec<Chunk>>>::try_from", "<PwbPacket as TryFrom<Vec<Chunk>>>::try_from",
                 "Chunk::{board_id, after_id, is_end_of_message, payload}", "<PwbV2Packet as TryFrom<&[u8]>>::try_from (on the concatenation)",
                 "Chunk::verif_from_parts (hook)"]
-C04_LOOPS = [("BoardId", 73), ("c04::reassembly", 40), ("memcmp", 8)]
+# the concatenated payload reaches the slice decoder through the heap, where CBMC no longer sees the (zero) channel masks as
+# constants: give the decoder's mask scans and channel loop the 1 iteration a zero mask needs - the unwinding assertions
+# make the solver prove that this is enough
+C04_LOOPS = [("BoardId", 73), ("c04::reassembly", 40), ("memcmp", 8), ("ChunksExact", 6), ("rfold", 2),
+             ("TryFromRShE8try_from.", 2)]
 def octal(seq):
     return sum(d << (3 * i) for i, d in enumerate(seq))
-LEN_BY_ID = {2: (7, 7), 3: (5, 5, 4), 4: (4, 4, 4, 2)}
-def c04(n, ids, lens, sched, kind, klass="core", est=300):
-    name = "c04_n%d_ids%s_len%s" % (n, "".join(map(str, ids)), "".join(map(str, lens)))
+def b64(seq):
+    return sum(d << (6 * i) for i, d in enumerate(seq))
+LEN_BY_ID = {2: (28, 28), 3: (20, 20, 16), 4: (16, 16, 16, 8)}
+def c04(n, ids, lens, sched, kind, klass="core", est=900):
+    name = "c04_n%d_ids%s_len%s" % (n, "".join(map(str, ids)), "_".join(map(str, lens)))
     if any(i.name == name for i in INSTS):
         return
-    wit = {"valid": ["well-formed-set-decoded", "well-formed-set-bad-payload", "faulty-set"], "fault": ["faulty-set"]}[kind]
-    add(name=name, prop="C04", also=["C01"], crate="det", expr="crate::c04::reassembly::<%d, %d, %d>" % (n, octal(ids), octal(lens)),
-        unwind=12, unwindset=C04_LOOPS, cap_s=3600, mem_gb=8, est_s=est, family="reassembly_" + kind, funcs=CHUNKS_FUNCS,
-        witnesses=wit, sched=sched, klass=klass, solver="minisat",
-        params={"chunks": n, "arrival_order_of_ids": list(ids), "payload_lengths": [4 * x for x in lens],
+    wit = {"valid": ["well-formed-set-decoded", "well-formed-set-bad-payload", "faulty-set"],
+           "short": ["well-formed-set-bad-payload", "faulty-set"], "fault": ["faulty-set"]}[kind]
+    add(name=name, prop="C04", also=["C01"], crate="det", expr="crate::c04::reassembly::<%d, %d, %d>" % (n, octal(ids), b64(lens)),
+        unwind=12, unwindset=C04_LOOPS, cap_s=4000, mem_gb=14, est_s=est, family="reassembly_" + kind.replace("short", "valid"),
+        funcs=CHUNKS_FUNCS, witnesses=wit, sched=sched, klass=klass,
+        params={"chunks": n, "arrival_order_of_ids": list(ids), "payload_lengths": list(lens),
                 "symbolic": "board (2 real boards), chip, end-of-message flag, counters, payload bytes"})
 for n in (2, 3, 4):
     base = LEN_BY_ID[n]
     for perm in _it.permutations(range(n)):
         lens = tuple(base[i] for i in perm)
-        first = perm in ((1, 0), (0, 1), (2, 0, 1))
-        c04(n, perm, lens, "always" if first else ("pool" if n <= 3 else "thorough"), "valid", est=300 if n < 4 else 600)
+        c04(n, perm, lens, "always" if perm == (1, 0) else ("pool" if n <= 3 else "thorough"), "valid",
+            est=900 if n < 4 else 1500, klass="core" if n < 4 else "best")
 # duplicated / missing ids (every arrival order of each faulty multiset, n = 2, 3)
 for ids in ((0, 0), (1, 1), (0, 2), (1, 2), (0, 7)):
     for perm in sorted(set(_it.permutations(ids))):
-        c04(2, perm, (7, 7), "always" if perm in ((0, 0), (2, 0)) else "pool", "fault", est=150)
+        c04(2, perm, (28, 28), "always" if perm in ((0, 0), (2, 0)) else "pool", "fault")
 for ids in ((0, 1, 1), (0, 0, 2), (0, 1, 3), (1, 2, 3), (0, 2, 2), (0, 0, 0)):
     for perm in sorted(set(_it.permutations(ids))):
-        c04(3, perm, (5, 5, 4), "pool" if perm[0] != 0 else "thorough", "fault", est=200)
-# a non-final chunk of another size (n = 3): sizes by id (5,4,4), (4,5,4), (6,5,3)
-for by_id in ((5, 4, 4), (4, 5, 4), (6, 5, 3)):
+        c04(3, perm, (20, 20, 16), "pool" if perm[0] != 0 else "thorough", "fault")
+# a non-final chunk of another size (n = 3), including sizes that differ by less than a 32-bit word
+for by_id in ((20, 16, 16), (16, 20, 16), (20, 17, 16), (18, 20, 16), (20, 19, 17)):
     for perm in _it.permutations(range(3)):
-        c04(3, perm, tuple(by_id[i] for i in perm), "always" if (by_id, perm) == ((5, 4, 4), (1, 2, 0)) else "pool", "fault", est=200)
-# final chunk of another size is fine (valid), n = 2 with unequal sizes
-for lens_by_id in ((7, 6), (6, 7), (1, 7)):
+        c04(3, perm, tuple(by_id[i] for i in perm), "always" if (by_id, perm) == ((20, 17, 16), (1, 2, 0)) else "pool", "fault")
+# the final chunk may have any size (well-formed set; total != 56 so the slice decoder rejects the payload)
+for lens_by_id in ((28, 24), (24, 28), (3, 28), (28, 1)):
     for perm in _it.permutations(range(2)):
-        c04(2, perm, tuple(lens_by_id[i] for i in perm), "pool", "valid", est=300)
-for i in INSTS:
-    if i.name.startswith("c04_") and ("len76" in i.name or "len67" in i.name or "len17" in i.name or "len71" in i.name):
-        i.witnesses = ["well-formed-set-bad-payload", "faulty-set"]
+        c04(2, perm, tuple(lens_by_id[i] for i in perm), "pool", "short")
 add(name="c04_empty", prop="C04", also=["C01"], crate="det", expr="crate::c04::reassembly_empty", unwind=6, cap_s=600, mem_gb=4,
     est_s=20, family="reassembly_fault", funcs=CHUNKS_FUNCS[:1], witnesses=["rejected"], params={"chunks": 0})
-for (n, ids, lens) in ((1, (0,), (7,)), (2, (1, 0), (7, 7)), (3, (2, 0, 1), (1, 2, 3)), (2, (0, 0), (0, 1))):
-    add(name="c01_chunks_total_n%d_%s_%s" % (n, "".join(map(str, ids)), "".join(map(str, lens))), prop="C01", crate="det",
-        expr="crate::c04::reassembly_total::<%d, %d, %d>" % (n, octal(ids), octal(lens)), unwind=12,
-        unwindset=[("BoardId", 73), ("c04::reassembly_total", 40), ("memcmp", 8)], cap_s=3600, mem_gb=8, est_s=400,
-        family="chunks", funcs=CHUNKS_FUNCS[:2], witnesses=["rejected"], sched="always" if n == 1 else "pool",
-        params={"chunks": n, "ids": list(ids), "payload_lengths": [4 * x for x in lens], "payload": "fully symbolic"})
+for (n, ids, lens) in ((1, (0,), (28,)), (2, (1, 0), (28, 28)), (3, (2, 0, 1), (4, 7, 9)), (2, (0, 0), (0, 1))):
+    add(name="c01_chunks_total_n%d_%s_%s" % (n, "".join(map(str, ids)), "_".join(map(str, lens))), prop="C01", crate="det",
+        expr="crate::c04::reassembly_total::<%d, %d, %d>" % (n, octal(ids), b64(lens)), unwind=12,
+        unwindset=[("BoardId", 73), ("c04::reassembly_total", 40), ("memcmp", 8)], cap_s=3600, mem_gb=12, est_s=900,
+        family="chunks", funcs=CHUNKS_FUNCS[:2], witnesses=["rejected"], sched="pool" if n == 1 else "thorough", klass="best",
+        params={"chunks": n, "ids": list(ids), "payload_lengths": list(lens), "payload": "fully symbolic"})
 META["C04"] = {
-    "pool_k": 5,
-    "budget_s": {"thorough": 4 * 3600},
+    "pool_k": 1,
+    "budget_s": {"thorough": 5 * 3600},
     "bounds": "sets of 2, 3 and 4 chunks whose payloads are the pieces of a 56-byte zero-channel packet (28+28, 20+20+16, "
               "16+16+16+8 bytes): EVERY arrival order of every well-formed set (2!, 3!, 4! instances) and of the faulty multisets "
-              "(duplicated id, missing id, non-final chunk of another size), each with board (2 real boards), chip, "
+              "(duplicated id, missing id, non-final chunk of another size incl. sizes differing by 1..3 bytes), each with board (2 real boards), chip, "
               "end-of-message flag, sequence counters and all payload bytes except the two channel masks symbolic; the empty list. "
               "Chunk ids and payload lengths are concrete per instance. Loops: default 12, board-table loops 73.",
     "outside": "more than 4 chunks, payload shapes other than the ones listed (in particular the 65535-byte maximum and packets with "
@@ -546,13 +553,34 @@ META["C04"] = {
                     "the reference is the documented predicate on the set plus the real slice decoder on the payloads concatenated in id order"],
 }
 
-add(name="probe_pwb_total_two", prop="PROBE", crate="det", expr="crate::c05::pwb_total::<72, 15, 16, -1, 2>", unwind=16,
-    unwindset=pwb_loops(2), sched="always", cap_s=1200, witnesses=[])
 
-add(name="probe_fifo_prefix_8", prop="PROBE2", crate="det", expr="crate::c07::fifo_prefix::<8>", unwind=4, unwindset=fifo_loops(2),
-    cap_s=1500, mem_gb=10, witnesses=["all-words-are-entries"], solver="minisat")
-add(name="probe_fifo_prefix_4", prop="PROBE2", crate="det", expr="crate::c07::fifo_prefix::<4>", unwind=4, unwindset=fifo_loops(1),
-    cap_s=1500, mem_gb=10, witnesses=["all-words-are-entries"], solver="minisat")
 
-add(name="probe_rows_only_2", prop="PROBE4", crate="phys", expr="crate::c20::dbg_rows_only::<2>", unwind=6, cap_s=500, mem_gb=8, witnesses=[])
-
+META["C01"] = {
+    "pool_k": 10,
+    "budget_s": {"thorough": 4 * 3600},
+    "bounds": "totality (Kani's panic / unwrap / index / arithmetic-overflow / unwinding checks, dev-profile MIR, overflow checks in "
+              "every profile) of: AdcV3Packet/AdcPacket::try_from for every content of lengths 0..=40 and 160..=171; TrgV3Packet/"
+              "TrgPacket::try_from lengths 0..=96; Chunk::try_from lengths 0..=40 (declared length symbolic) plus window edges; "
+              "PwbV2Packet/PwbPacket::try_from lengths 0..=55 and 14 mask/requested_samples shapes up to 66 bytes; "
+              "TryFrom<Vec<Chunk>> on the C04 lists; chronobox_fifo on the C07 streams; every *BankName and BoardId::try_from(&str) "
+              "for all ASCII strings of 0..=6 bytes and all UTF-8 strings of <= 4 bytes; all integer/MAC/char id conversions over "
+              "their full domains; padwing::suppression_baseline on 0/67/68/69/70 samples.",
+    "outside": "longer slices (up to 65 KiB in the statement): all further length dependence is a comparison of len/2 with 12- and "
+               "16-bit fields - an argument, not a solver result; PWB packets with more than 2 sent channels; release-profile MIR "
+               "(reached only through native replays)",
+    "assumptions": ["same trusted base as C02-C08; no functional oracle, only the absence of panics/overflow/OOB/non-termination within the bounds"],
+}
+META["C08"] = {
+    "pool_k": 4,
+    "budget_s": {"thorough": 3 * 3600},
+    "bounds": "all ASCII strings of 0..=6 bytes and all valid UTF-8 strings of 1..=4 bytes through each of the ten bank-name "
+              "parsers (accept <=> documented pattern; board/channel decoded = the name's characters; for MainEventBankName the "
+              "decoded (kind, board, channel) determines the name, hence distinct names denote distinct channels); board names; every "
+              "u8/u16/char/MAC/device-id/usize conversion over its full domain against frozen copies of the documented tables; "
+              "TpcPadPosition::new injective; wire->pad-column arithmetic for all 256 wires incl. rotation law and geometry (half a "
+              "pad pitch); run gating (best effort).",
+    "outside": "the run-number dependent HashMap tables themselves: (board, channel) -> wire and (board, chip, channel) -> pad "
+               "bijections, 'simulation maps like run 5000', the 10418 switch - one lookup in a lazy_static HashMap is beyond the "
+               "bit-blasting back end (SipHash over a symbolic seed); the repository's unit tests enumerate these tables",
+    "assumptions": ["8 Alpha16 and 71 PadWing board rows frozen in harness/det/src/oracle.rs at design time"],
+}
